@@ -77,6 +77,7 @@ Qed.
 
 Definition insert_cond (c : cfg) (sch : schema) (rec : list string) : bool :=
   Nat.eqb (List.length (eff_cols sch (dstCols c))) (List.length (srcCols c)) &&
+  cols_ok (map fd_name sch) (eff_cols sch (dstCols c)) [] &&
   row_fits sch (convert c sch rec) &&
   (enc_size sch (convert c sch rec) <=? maxValueSize).
 
@@ -88,6 +89,7 @@ Lemma insert_spec c sch rec :
 Proof.
   unfold insert_row, insert_cond. rewrite vals_of_length, build_row_convert, first_invalid_fits.
   destruct (Nat.eqb (List.length (eff_cols sch (dstCols c))) (List.length (srcCols c))); cbn [negb andb]; [|reflexivity].
+  destruct (cols_ok _ _ _); cbn [negb andb]; [|reflexivity].
   destruct (first_invalid sch (convert c sch rec)); cbn [andb]; [reflexivity|].
   destruct (enc_size sch (convert c sch rec) >? maxValueSize) eqn:E.
   - apply Z.leb_gt. lia.
